@@ -223,3 +223,35 @@ def _fresh(vo):
         return False
     p = subprocess.run(['make', '-q', vo], cwd=COQ, stdout=subprocess.PIPE, stderr=subprocess.STDOUT)
     return p.returncode == 0
+
+
+def coqchk(prop_id, timeout=1500):
+    """Independent re-check of Properties/<id>.vo and everything it depends on (thorough tier).
+    Returns (ok, axioms, problems, seconds)."""
+    t0 = time.time()
+    try:
+        p = subprocess.run(['timeout', str(timeout), 'coqchk', '-silent', '-o', '-Q', '.', 'PV', f'PV.Properties.{prop_id}'],
+                           cwd=COQ, stdout=subprocess.PIPE, stderr=subprocess.STDOUT, text=True)
+    except OSError as e:
+        return False, [], [f'coqchk could not run: {e}'], 0.0
+    out = p.stdout
+    problems = []
+    if p.returncode != 0:
+        problems.append(f'coqchk exit {p.returncode}: {out[-400:]}')
+    axioms = []
+    section = None
+    for line in out.split('\n'):
+        if line.startswith('* '):
+            section = line
+            for key in ('type-in-type', 'unsafe (co)fixpoints', 'positivity is assumed'):
+                if key in line and '<none>' not in line:
+                    problems.append('coqchk: ' + line.strip())
+        elif section and section.startswith('* Axioms') and line.strip():
+            axioms.append(line.strip())
+        elif section and line.strip() and not section.startswith('* Axioms') and not section.startswith('* Theory'):
+            if any(key in section for key in ('type-in-type', 'unsafe', 'positivity')):
+                problems.append(f'coqchk: {section.strip()} {line.strip()}')
+    for a in axioms:
+        if not a.startswith('Coq.'):
+            problems.append(f'coqchk: axiom outside the standard library: {a}')
+    return not problems, axioms, problems, round(time.time() - t0, 1)
